@@ -278,6 +278,10 @@ func shapeOf(f fn) string {
 		}
 	case "Statement":
 		n := len(txt)
+		if n == 1 && len(d.Type.Params.List) == 0 && txt[0] == "return &Statement{s}" {
+			// Clone: a NEW statement whose single item is the receiver pointer (Heap.clone)
+			return "cloneWrap"
+		}
 		if n >= 2 && txt[n-1] == "return s" {
 			last := txt[n-2]
 			if n == 3 && strings.HasPrefix(txt[0], "g := &Group{") && last == "*s = append(*s, g)" {
@@ -734,7 +738,7 @@ func main() {
 		var b strings.Builder
 		b.WriteString(hdr + "import JenVerif.Str\nnamespace Gen\n\n")
 		b.WriteString("inductive Recv | func | stmt | group | file | other\nderiving DecidableEq, Repr\n\n")
-		b.WriteString("inductive Shape | delegateToNew | groupAppend | stmtAppendGroup | stmtAppendGroupCallback | stmtAppendToken\n  | stmtAppendOther | stmtAppendItems | evalCallbackThenAppend | callbackOnSelf | other\nderiving DecidableEq, Repr\n\n")
+		b.WriteString("inductive Shape | delegateToNew | groupAppend | stmtAppendGroup | stmtAppendGroupCallback | stmtAppendToken\n  | stmtAppendOther | stmtAppendItems | evalCallbackThenAppend | callbackOnSelf | cloneWrap | other\nderiving DecidableEq, Repr\n\n")
 		b.WriteString("structure ApiEntry where\n  name : Str\n  recv : Recv\n  shape : Shape\n  nparams : Nat\n  variadic : Bool\n  takesFunc : Bool\nderiving DecidableEq, Repr\n\n")
 		b.WriteString("def api : List ApiEntry := [\n")
 		first := true
